@@ -114,7 +114,7 @@ theorem export_file_rows (mode : Nat) (a : Anacrusis) (minPpq vel : Nat) (parts 
 /-- **Round trip, any import mode** (`shift`, `time_sig_change`).  Export with mode `mode`, import the written file
     with ANY mode `imode` for which the importer returns: the imported parts together hold exactly the score's
     sounding notes in musical time, and every created part has `ppq` divisions per quarter.  (`score_roundtrip` is
-    `imode = mode`; which (part, voice) a note lands in is `roundtrip_cells`, for `imode = mode` only.) -/
+    `imode = mode`; which (part, voice) a note lands in is `roundtrip_cells_any_import_mode`.) -/
 theorem score_roundtrip_any_import_mode (mode imode : Nat) (a : Anacrusis) (minPpq vel : Nat) (parts : List PartIn)
     (ex : Exported) (imp : Imported)
     (h : saveScoreMidi mode a minPpq vel parts = some ex)
